@@ -72,17 +72,17 @@ type Violation struct {
 
 // Result is what one shard (child process) reports.
 type Result struct {
-	Evaluations  int64            `json:"evaluations"`
-	Distinct     []uint64         `json:"distinct"`
-	Nontrivial   []uint64         `json:"nontrivial"`
-	Samples      []any            `json:"samples"`
-	Violations   []Violation      `json:"violations"`
-	Inconclusive []string         `json:"inconclusive"`
-	Counters     map[string]int64 `json:"counters"`
+	Evaluations  int64               `json:"evaluations"`
+	Distinct     []uint64            `json:"distinct"`
+	Nontrivial   []uint64            `json:"nontrivial"`
+	Samples      []any               `json:"samples"`
+	Violations   []Violation         `json:"violations"`
+	Inconclusive []string            `json:"inconclusive"`
+	Counters     map[string]int64    `json:"counters"`
 	Sets         map[string][]string `json:"sets"`
-	Notes        []string         `json:"notes"`
-	Exhaustive   *bool            `json:"exhaustive,omitempty"`
-	Done         bool             `json:"done"`
+	Notes        []string            `json:"notes"`
+	Exhaustive   *bool               `json:"exhaustive,omitempty"`
+	Done         bool                `json:"done"`
 }
 
 // Ctx is handed to a check running in one shard.
